@@ -35,11 +35,12 @@ PROPS["C05"] = {
     "trusted_base": ["go/packages + go/ssa construction and topology.ExtractTopology are exercised, not modelled"],
 }
 PROPS["C19"] = {
-    "suites": [{"name": "sim", "quick": 1500, "thorough": 40000}],
+    "suites": [{"name": "sim", "quick": 1500, "thorough": 40000}, {"name": "diffreport", "quick": 8, "thorough": 150, "timeout": 3000}],
     "required_theorems": ["C19_sim_symm", "C19_sim_range", "C19_sim_self", "C19_sim_eq_one_of_eq_features",
-                          "C19_mapSim_symm", "C19_typeListSim_symm"],
+                          "C19_mapSim_symm", "C19_typeListSim_symm", "C19_pairs_injective", "C19_pairs_above_threshold",
+                          "C19_rename_found"],
     "level_text": "Kernel-checked over exact rationals: TopologySimilarity is symmetric, lies in [0,1] and is exactly 1 whenever the name-free features agree (so for a renamed copy); the model is tied to topology.TopologySimilarity by a differential on generated topology pairs in both argument orders, with the same three clauses checked on the real floats.",
-    "level_note": "Trusted: Lean kernel; float64 vs Rat (|Δ|<=2^-40); Go map iteration modelled as duplicate-free association lists. The rename-pairing clauses (one-to-one, >= threshold, rename reported) are checked by the diff-report suites of C09.",
+    "level_note": "Trusted: Lean kernel; float64 vs Rat (|Δ|<=2^-40); Go map iteration modelled as duplicate-free association lists. The rename-pairing clauses are theorems about the matcher model (pairs one-to-one, every fuzzy pair >= threshold, a renamed-only function whose shape is unique among the leftovers is paired with its copy) tied by the diff-report differential on the real cli.ComputeDiff.",
     "trusted_base": ["frequency maps are modelled as duplicate-free association lists (hypothesis NodupKeys in the theorems)"],
 }
 PROPS["C20"] = {
@@ -106,7 +107,27 @@ PROPS["C11"] = {
     "partial": "data-race freedom and Pebble snapshot isolation are exercised, not proved",
     "trusted_base": ["pebble.Snapshot isolation", "Go race detector (sampled schedules)"],
 }
+PROPS["C09"] = {
+    "suites": [{"name": "diffreport", "quick": 10, "thorough": 150, "timeout": 3000}],
+    "required_theorems": ["C09_old_partition", "C09_new_partition", "C09_same_name_paired", "C09_byName_iff",
+                          "C09_summary_counts"],
+    "level_text": "Kernel-checked on the model of MatchFunctionsByTopology + ComputeDiff's bookkeeping: every old and every new function lies in exactly one of matched/added/removed (for all lists with distinct short names and every threshold), name-identical functions are paired by name, by-name pairs have equal names, summary counters equal the entry counts. Tie: generated old/new file pairs (kept/edited/renamed/same-shape renamed/added/removed functions, methods, closures) through the real cli.ComputeDiff; the matched/added/removed partition is compared with the Lean model fed the real function lists and topologies, and every clause is evaluated on the real report. Last clause (instruction level): the real Zipper is run on every paired function and its forward/reverse instruction maps (hook) are checked to be inverse bijections between same-kind, same-type instructions, with MatchedNodes and the added/removed lists recomputed from the maps.",
+    "level_note": "PARTIAL: the instruction-level clause (zipper matching is one-to-one and kind/type respecting, lists = unpaired instructions) is decided by the run-time oracle on the real maps, not by a theorem - the zipper is not modelled in Lean. Trusted: Lean kernel; float64 vs Rat similarity (near-ties skipped and counted); hook VerifInstrMaps.",
+    "partial": "zipper instruction matching is checked by oracle on the real maps, not proved",
+    "trusted_base": ["go/ssa construction; topology.ExtractTopology (fed to the model as data)", "hook VerifInstrMaps (read-only accessor)"],
+}
+PROPS["C10"] = {
+    "suites": [{"name": "repeat", "timeout": 3000}, {"name": "diffreport", "quick": 6, "thorough": 60, "timeout": 3000}],
+    "needs_sfw": True,
+    "required_theorems": ["C10_match_perm_invariant", "C10_alerts_order_schedule_invariant", "C10_alerts_sorted",
+                          "C10_sort_perm_invariant", "C10_slots_schedule_invariant", "C10_slot_content", "C10_old_key_not_total"],
+    "level_text": "Kernel-checked, each for EVERY arrival order: the diff matcher's outcome (pairs, similarities, added, removed) is invariant under every permutation of the old and of the new function list (the Go maps' iteration order) for lists with distinct short names; scan's alert order (model of the less-function of RunScanLogic: a strict total order on the alert key, proved irreflexive/trichotomous/transitive) gives the same sorted list for any two permutations of the alerts, whereas the pre-fix key provably does not; check's index-addressed result slots end in the same array whatever order the workers finish in. Tie: the model is compared with the real ComputeDiff on generated pairs with tied candidates; and the real binary (built from the working tree) is run repeatedly at GOMAXPROCS 1, 2 and 16 on generated trees shaped to tie (identical shapes, identical short names across packages, a database indexed from the tree itself) for check, scan (Pebble, Pebble --exact, JSON) and diff; every stdout must be byte-identical.",
+    "level_note": "PARTIAL: scheduling of the per-file goroutines and Go map iteration order are sampled by repetition (3 x 3 runs quick, 30 x 3 thorough), not enumerated; the theorem covers the matcher, the alert-sort and slot theorems cover scan/check ordering. Trusted: Lean kernel, go/packages load order.",
+    "partial": "goroutine schedules and map orders are sampled by repeated runs",
+    "trusted_base": ["Go runtime scheduler and map iteration (sampled)", "sort.SliceStable is a stable sort (modelled as mergeSort)"],
+}
 _PENDING = "check not built yet in this round (planned: Lean model + theorems + differential, see DESIGN.md §5)"
 # entries with "unclaimed": True are runnable (./check Cxx) but not yet claimed in MANIFEST.json
 NOT_APPLICABLE = {p: _PENDING for p in ["C%02d" % i for i in range(1, 21)] if p not in PROPS or PROPS[p].get("unclaimed")}
-HOOK_COMMITS = ["62f4a35bbfb762f168515cd7c5338c1c6cff78cc"]
+HOOK_COMMITS = ["62f4a35bbfb762f168515cd7c5338c1c6cff78cc", "8ba54fa04b0057593bc8f1f66ad8aa6e22db7412",
+                "3d3870806691e3d1380ce61acaa03447408c434f"]
